@@ -352,6 +352,41 @@ fn no_engine(which: u8) -> impl Fn() {
     }
 }
 
+/// a vAMM deployed without an insurance fund, whose ownership was then transferred: only the new
+/// owner may open / close it (both flag values, in both states); in particular the deployer keeps
+/// no right through an unset insurance-fund role
+fn no_insurance_fund(transferred: bool) -> impl Fn() {
+    move || {
+        symrt::set_full(true);
+        let roles = [Role::Owner, Role::Pauser, Role::Engine, Role::Ins, Role::Trader, Role::Stranger, Role::NewOwner];
+        for role in roles.iter() {
+            for start_open in [true, false] {
+                for flag in [true, false] {
+                    let mut w = setup(false, "vamm", false);
+                    let v2 = w.instantiate_vamm_opts(w.cfg.decimals, true, false);
+                    if !start_open {
+                        assert!(w.exec(OWNER, &v2, &VammExec::SetOpen { open: false }, &[]).ok);
+                    }
+                    if transferred {
+                        assert!(w.exec(OWNER, &v2, &VammExec::UpdateOwner { owner: "owner2".into() }, &[]).ok);
+                    }
+                    let who = sender_addr(&w, *role);
+                    let before = w.app.dump_wasm_raw(&v2);
+                    let t = w.exec(&who, &v2, &VammExec::SetOpen { open: flag }, &[]);
+                    let owner_now = if transferred { Role::NewOwner } else { Role::Owner };
+                    let what = format!("vAMM without insurance fund{}: SetOpen{{{}}} when {} sender={:?}", if transferred { " after ownership transfer" } else { "" }, flag, if start_open { "open" } else { "closed" }, role);
+                    if *role != owner_now {
+                        prove_d("C09/non-role-sender-rejected", Cond::from_bool(!t.ok), what.clone());
+                        prove_d("C09/rejected-call-leaves-storage-unchanged", Cond::from_bool(before == w.app.dump_wasm_raw(&v2)), what);
+                    } else if flag != start_open {
+                        prove_d("C09/role-holder-not-rejected-for-authorisation", Cond::from_bool(t.ok || !is_auth_error(&t.err)), format!("{} err={}", what, crate::sx::norm(&t.err)));
+                    }
+                }
+            }
+        }
+    }
+}
+
 pub fn scenarios(_seed: u64) -> Vec<Scenario> {
     let mut v = vec![];
     let d = "one privileged entry point x all sender kinds {owner, pauser, engine, insurance fund, vAMM, trader, stranger (+ new owner / new pauser after a role transfer)} on fresh deployments with the repository's own price feed; payload amounts/ratios symbolic over the full range";
@@ -365,6 +400,8 @@ pub fn scenarios(_seed: u64) -> Vec<Scenario> {
     for (k, n) in [(0u8, "swap_input"), (1, "swap_output"), (2, "settle_funding")] {
         v.push(sc("C09", Tier::Quick, &format!("c09.vamm.{}.no-engine-configured", n), "a vAMM instantiated without a margin engine: the engine-only entry point must reject every sender kind", 200, 60, no_engine(k)));
     }
+    v.push(sc("C09", Tier::Quick, "c09.vamm.set_open.no-insurance-fund", "a vAMM instantiated without an insurance fund: SetOpen (both values, both states) by every sender kind", 200, 60, no_insurance_fund(false)));
+    v.push(sc("C09", Tier::Quick, "c09.vamm.set_open.no-insurance-fund.transferred", "the same after the vAMM's ownership was transferred: the deployer keeps no right", 200, 60, no_insurance_fund(true)));
     let _ = Addr::unchecked("");
     v
 }
